@@ -308,7 +308,14 @@ def _grouped(body, digits, first_max, group):
 
 
 def langref_is_number(w, allow_prefix_underscore=False):
-    """doc/language-reference.md, "Numeric Constant Formats"."""
+    """doc/language-reference.md, "Numeric Constant Formats".
+
+    `allow_prefix_underscore`: the paragraph "A single `_` may also be placed directly after the
+    `0x` or `0b` prefix, before the first group of digits" is present (it is since /repo commit
+    1c861f8; `langref_allows_radix_underscore` reads it off the reference on every run).  What
+    follows that `_` are *groups* under the 4- or the 8-digit rule (first group 1..4 resp. 1..8
+    digits, the others exactly 4 resp. 8); a longer unseparated run is not a group, so
+    `0x_123456789` is not of the form."""
     if w and set(w) <= DIGIT:
         return True
     if _grouped(w, DIGIT, 3, 3):
@@ -316,8 +323,11 @@ def langref_is_number(w, allow_prefix_underscore=False):
     for prefix, digits in (("0x", HEX), ("0b", set("01"))):
         if w.startswith(prefix):
             body = w[2:]
-            if allow_prefix_underscore and body.startswith("_"):
+            if body.startswith("_"):
+                if not allow_prefix_underscore:
+                    return False
                 body = body[1:]
+                return _grouped(body, digits, 4, 4) or _grouped(body, digits, 8, 8)
             if body and set(body) <= digits:
                 return True
             if _grouped(body, digits, 4, 4) or _grouped(body, digits, 8, 8):
@@ -382,8 +392,11 @@ def langref_examples():
 
 
 def langref_allows_radix_underscore():
-    """Does the reference (by example) allow `0x_…` / `0b_…`?  False on the pinned tree; the
-    proposed documentation patch fixes/C10-radix-underscore-doc.patch makes it True."""
+    """Does the reference describe `0x_…` / `0b_…`?  Read off the current text on every run: the
+    section must have an allowed example of that form (on /repo HEAD: `0x_1234_5678`, `0x_ff`,
+    `0b_1010_0101`, added by commit 1c861f8).  With that commit reverted this is False, the
+    oracle then expects BadNumber for `0x_1` and the check reports the classification
+    violation again (finding `number-with-underscore-directly-after-radix-prefix`, fixed)."""
     return any(ok and t[:3] in ("0x_", "0b_") for t, ok in langref_examples())
 
 
